@@ -70,6 +70,12 @@ func c07RawHistories(tier string) []c07History {
 	hs := []c07History{
 		{ID: "H12", What: "unchanged sources with a nested derive call, second run in place", Raw1: nested("string"), Raw2: nested("string"), Harness: sortH("string"), HarnessNames: names},
 		{ID: "H13", What: "map retyped under an explicit deriveSort(deriveKeys(m))", Raw1: nested("string"), Raw2: nested("int"), Harness: sortH("int"), HarnessNames: names},
+		{ID: "H21", What: "map retyped where the derive result flows through a variable into the next derive call",
+			Raw1: "func use(m map[string]int) []string {\n\tks := deriveKeys(m)\n\treturn deriveSort(ks)\n}\n",
+			Raw2: "func use(m map[int]int) []int {\n\tks := deriveKeys(m)\n\treturn deriveSort(ks)\n}\n", Harness: sortH("int"), HarnessNames: names},
+		{ID: "H22", What: "element type retyped under a three-level nested derive call",
+			Raw1: "func use(m map[string]int) []string { return deriveSort(deriveUnique(deriveKeys(m))) }\n",
+			Raw2: "func use(m map[int]int) []int { return deriveSort(deriveUnique(deriveKeys(m))) }\n", Harness: sortH("int"), HarnessNames: names},
 		{ID: "H14", What: "second derive call of the same plugin added",
 			Raw1: "type A struct{ X int }\n\nfunc eqA(a, b *A) bool { return deriveEqualA(a, b) }\n",
 			Raw2: "type A struct{ X int }\n\ntype B struct{ Y string }\n\nfunc eqA(a, b *A) bool { return deriveEqualA(a, b) }\n\nfunc eqB(a, b *B) bool { return deriveEqualB(a, b) }\n"},
